@@ -66,8 +66,6 @@ def conv (n0 : Int) (toks : List (Bop × Int)) : Int :=
   let (ms, gs2) := grp2 (gs.map fun p => (p.1, towerVal p.2))
   gs2.foldl (fun acc p => apply p.1 acc (termVal p.2.1 p.2.2)) (termVal (towerVal (n0 :: ps)) ms)
 
-#eval yard 2 [(.mul, 3), (.pow, 2), (.pow, 2), (.mul, 5), (.sub, 7), (.div, 2)]
-#eval conv 2 [(.mul, 3), (.pow, 2), (.pow, 2), (.mul, 5), (.sub, 7), (.div, 2)]
 
 
 /-! ## refinement proof -/
@@ -320,5 +318,4 @@ theorem yard_eq_conv (n0 : Int) (toks : List (Bop × Int)) : yard n0 toks = some
   rw [conv_eq]
   exact run_conc toks ⟨none, none, [], n0⟩ ⟨(fun p h => nomatch h), (fun p h => nomatch h)⟩
 
-#print axioms yard_eq_conv
 end P.YP
